@@ -1,2 +1,7 @@
-From OCV Require Export Cases.Pool.
-Definition judge := judge_with po_c13.
+From OCV Require Export Cases.Pool Sched.PoolBystander.
+(** C13 = the tracker's clauses (a task cancelled before it starts never runs, its waiter is settled)
+    and the bystander clause (a worker is cancelled only while carrying a task whose cancel was asked) *)
+Definition judge (c : pcase) : verdict :=
+  let v := judge_with po_c13 c in
+  {| v_corr := v_corr v; v_prop := v_prop v && bystander_ok (pc_ops c) (pc_impl c);
+     v_tags := v_tags v; v_note := v_note v |}.
